@@ -29,9 +29,11 @@ class InjectedFault(Exception):
 
 VARIANTS_QUICK = [
     {"name": "eager", "data": {}, "fin": ((0, -1), (0, -1), (0, -1)), "res2": False},
-    {"name": "tf_function", "data": {"use_tf_function": True}, "fin": ((0, -1), (0, -1), (0, -1)), "res2": False},
+    # warm: the model has been evaluated (and traced, on the complete chain list) before the history starts
+    {"name": "tf_function", "data": {"use_tf_function": True}, "fin": ((0, -1), (0, -1), (0, -1)), "res2": False, "warm": True},
 ]
 VARIANTS_THOROUGH = VARIANTS_QUICK + [
+    {"name": "tf_function_cold", "data": {"use_tf_function": True}, "fin": ((0, -1), (0, -1), (0, -1)), "res2": False},
     {"name": "eager_spin1_2res", "data": {}, "fin": ((1, -1), (0, -1), (0, -1)), "res2": True},
     {"name": "tf_function_2res", "data": {"use_tf_function": True}, "fin": ((0, -1), (0, -1), (0, -1)), "res2": True},
 ]
@@ -79,6 +81,9 @@ class World:
             return orig(data)
 
         dg.get_amp = get_amp  # instance-level seam
+        if variant.get("warm"):
+            self.amp(self.d0)
+            self.amp(self.d0)
 
     # ---------------- observation (destructive: only at the end of an execution)
     def observe(self):
@@ -156,6 +161,19 @@ def blocks(tier):
     for k in BLOCK_KINDS:
         for b in bodies + nested:
             out.append(("block", k, b))
+    return out
+
+
+def block_pairs(tier):
+    """every ordered pair of block kinds nested with an empty body (offered from the initial state, thorough: depth <= 1)"""
+    have = set(blocks(tier))
+    out = []
+    for k1 in BLOCK_KINDS + ["mask_params2"]:
+        for k2 in BLOCK_KINDS + ["mask_params2"]:
+            for body in (("pass",), ("eval_same",)):
+                op = ("block", k1, ("block", k2, body))
+                if op not in have and k1 != "mask_params2":
+                    out.append(op)
     return out
 
 
@@ -365,6 +383,8 @@ def expand(payload):
     res = Res()
     succ = []
     ops = PERSISTENT + comps(tier) + blocks(tier)
+    if len(hist) <= (0 if tier == "quick" else 1):
+        ops = ops + block_pairs(tier)
     i0, n0 = payload.get("slice", (0, 1))
     for op in ops[i0::n0]:
         h2 = hist + [op]
@@ -412,7 +432,7 @@ def faults(payload):
 def run(tier, seed, only=None):
     rep = Report(
         PID, tier, seed, "fault_enumeration",
-        rule="(a) BFS over histories of read-only computations / override blocks / persistent selection+parameter ops on a real "
+        rule="(a) BFS over histories of read-only computations / override blocks (10 kinds x bodies incl. nested blocks; every ordered pair of kinds from the initial state) / persistent selection+parameter ops on a real "
              "AmplitudeModel (eager and tf.function variants); distinct states by hash of all hidden+observable fields; "
              "(b) for every explored state up to the fault depth and every read-only operation: an exception at every seam call "
              "(k-th amplitude evaluation, block body, abandoned iteration). A case is non-trivial when the fault actually fired "
